@@ -61,8 +61,8 @@ SimEnv ==
   \/ /\ Mode = "serial" /\ s.attempts <= MaxAttempts /\ bud.cmds < MaxCmds
      /\ PortSet(~s.portOk) /\ Log([op |-> "port", ok |-> ~s.portOk])
      /\ bud' = [bud EXCEPT !.cmds = @ + 1] /\ UNCHANGED subm
-  \/ /\ Mode = "session" /\ s.attempts < MaxAttempts /\ NewConnection /\ Log([op |-> "new_conn"])
-     /\ UNCHANGED <<bud, subm>>
+  \/ /\ Mode = "session" /\ bud.conns < MaxAttempts /\ NewConnection /\ Log([op |-> "new_conn"])
+     /\ bud' = [bud EXCEPT !.conns = @ + 1] /\ UNCHANGED subm
 
 SimNext == /\ \/ TaskStep /\ UNCHANGED <<subm, bud, elog>>
               \/ SimEnv
